@@ -305,8 +305,16 @@ pub fn undeclared_ref_scripts(sc: &Scenario, h: &History, upto: usize) -> BTreeS
                 declared.insert(*u);
                 None
             }
-            // (the mistaken attachment of a correction history is replaced at once: it declares nothing)
-            Op::InScript { wit, .. } => Some(wit),
+            // (the mistaken attachment of a correction history is replaced at once: it declares nothing; an input
+            // handed over again replaces the earlier hand-over and what that one declared)
+            Op::InScript { utxo, wit, .. } => {
+                let later = sc.ops.iter().enumerate().take(upto).skip(i + 1).any(|(j, o)| matches!(o, Op::InScript { utxo: u2, .. } if u2 == utxo) && h.results.get(j).map_or(false, |r| r.is_ok()));
+                if later {
+                    None
+                } else {
+                    Some(wit)
+                }
+            }
             Op::Cert(_, Some(w)) | Op::Wdr(_, _, Some(w)) | Op::Propose(_, Some(w)) => Some(w),
             // the mint builder keeps one script source per policy and the voting builder one per
             // voter: only the source of the first successful call is kept by the library
